@@ -175,6 +175,8 @@ class RawAnalysis:
         fn = fi.node
         if isinstance(fn, ast.Lambda):
             return
+        from ..inline import effective_node
+        fn = effective_node(self.ctx.repo, fi)        # a validation preamble hoisted into a decorator runs before the body
         cfg = CFG(fn)
         par = _parents(fn)
         ctx = self.ctx
